@@ -208,6 +208,13 @@ func runC06(c *sim.Ctx) *sim.Violation {
 			return fmt.Sprintf("stream of %d frames + %d trailing bytes; call %d on frame %s (%s, %d bytes): drew %d bytes -> %s",
 				len(frames), len(trailing), k, hexs(f), kinds[k], len(f), drawn, got)
 		}
+		if kinds[k] == "overlong-remaining-length" && got.Kind == "error" && drawn <= hdrLen(f) {
+			// a decoder may refuse a non-minimal remaining length while still in the
+			// fixed header; C06 speaks about calls that get PAST the fixed header.
+			// The stream is then out of step by the decoder's choice: the run ends.
+			c.Count("note.non-minimal-remaining-length-refused-in-the-fixed-header")
+			return nil
+		}
 		if drawn > len(f) {
 			return sim.V(fmt.Sprintf("C06/%s/%s/over-read", typ, okS), "%s\nover-read by %d: bytes of the next frame were consumed", desc(), drawn-len(f))
 		}
